@@ -31,7 +31,7 @@ type op struct {
 	K string `json:"k"`           // create update delete expire tick list get ext
 	T string `json:"t,omitempty"` // logical token name T1|T2
 	// create: "+1h" | "-8d"; update/delete: "cur" | "stale" | "empty";
-	// tick: "1h" | "8d"; ext: "drop-first" | "add" | "replace" | "rmfile" | "garbage"
+	// tick: "1h" | "8d"; ext: "drop-line" | "add" | "replace" | "rmfile" | "garbage"
 	A string `json:"a,omitempty"`
 }
 
@@ -56,7 +56,7 @@ func alphabet(http bool) []op {
 	}
 	a = append(a, op{K: "expire"}, op{K: "tick", A: "1h"}, op{K: "tick", A: "8d"},
 		op{K: "list", A: "g"}, op{K: "get", T: "T1"}, op{K: "get", T: "T2"})
-	for _, e := range []string{"drop-first", "add", "replace", "rmfile", "garbage"} {
+	for _, e := range []string{"drop-line", "add", "replace", "rmfile", "garbage"} {
 		a = append(a, op{K: "ext", A: e})
 	}
 	return a
@@ -116,7 +116,7 @@ func (w *seqWorld) Ops() []seqx.Op {
 		if o.K == "ext" {
 			lines, exists := readLines(tokenFile())
 			switch o.A {
-			case "drop-first":
+			case "drop-line":
 				if len(lines) == 0 {
 					continue
 				}
@@ -142,17 +142,31 @@ func (w *seqWorld) Ops() []seqx.Op {
 func (w *seqWorld) Outcome() string { return w.outcome }
 
 func (w *seqWorld) Canon() string {
+	c := w.canon()
+	if f := os.Getenv("C16_DUMP"); f != "" {
+		if fh, err := os.OpenFile(f, os.O_APPEND|os.O_CREATE|os.O_WRONLY, 0600); err == nil {
+			fmt.Fprintf(fh, "%s\t%s\n", w.hist, c)
+			fh.Close()
+		}
+	}
+	return c
+}
+
+func (w *seqWorld) canon() string {
 	var b strings.Builder
 	// the file as ordered lines with times relative to now
 	lines, exists := readLines(tokenFile())
 	fmt.Fprintf(&b, "file(%v):", exists)
+	var ls []string
 	for _, l := range lines {
 		if l.tok == nil {
-			b.WriteString("[garbage]")
+			ls = append(ls, "[garbage]")
 		} else {
-			fmt.Fprintf(&b, "[%s]", w.anon(norm(l.tok, true)))
+			ls = append(ls, "["+w.anon(norm(l.tok, true))+"]")
 		}
 	}
+	sort.Strings(ls) // line order is irrelevant to the loader and to the harness
+	b.WriteString(strings.Join(ls, ""))
 	// the cache: does it claim to mirror the current file version, and what
 	// does it hold
 	toks, size, mt := token.VerifC16Cached()
@@ -161,21 +175,33 @@ func (w *seqWorld) Canon() string {
 		fresh = fi.Size() == size && fi.ModTime().Equal(mt)
 	}
 	fmt.Fprintf(&b, " cache(fresh=%v zero=%v):", fresh, mt.IsZero())
+	var cs []string
 	for _, t := range toks {
-		fmt.Fprintf(&b, "[%s]", w.anon(norm(t, true)))
+		cs = append(cs, "["+w.anon(norm(t, true))+"]")
 	}
+	sort.Strings(cs)
+	b.WriteString(strings.Join(cs, ""))
 	// the remembered tag: only whether it is still current matters
 	valid := false
 	if w.hasSlot {
 		cur, ok := w.currentTag()
 		valid = ok && cur == w.slot
 	}
-	fmt.Fprintf(&b, " slot=%v", valid)
+	// ... and whether it names the version the cache mirrors (it then differs
+	// from a bogus tag for code that consults the cache)
+	cachedTag := ""
+	if !mt.IsZero() {
+		cachedTag = fmt.Sprintf("\"%v-%v\"", size, mt.UnixNano())
+	}
+	fmt.Fprintf(&b, " slot=%v/%v", valid, w.hasSlot && w.slot == cachedTag)
 	// history the oracle still needs
 	fmt.Fprintf(&b, " revoked=")
-	for _, n := range sortedKeys(w.revoked) {
-		fmt.Fprintf(&b, "%s:%s,", w.anon(n), w.revoked[n])
+	var rs []string
+	for n, how := range w.revoked {
+		rs = append(rs, w.anon(n)+":"+how)
 	}
+	sort.Strings(rs)
+	b.WriteString(strings.Join(rs, ","))
 	if w.http {
 		fmt.Fprintf(&b, " bound=")
 		for _, n := range sortedKeys(w.bind) {
@@ -184,6 +210,13 @@ func (w *seqWorld) Canon() string {
 		}
 	}
 	return b.String()
+}
+
+func (w *seqWorld) lineKey(l fileLine) string {
+	if l.tok == nil {
+		return "~garbage"
+	}
+	return w.anon(l.tok.Token)
 }
 
 // anon replaces server-chosen random names by their logical names.
@@ -643,8 +676,17 @@ func (w *seqWorld) ext(x op) {
 	file := tokenFile()
 	lines, _ := readLines(file)
 	switch x.A {
-	case "drop-first":
-		writeLines(file, lines[1:])
+	case "drop-line":
+		// remove the line of the token with the smallest (logical) name; the
+		// position of a line in the file is not used because rewrite() orders
+		// tokens of equal expiry by map iteration
+		min := 0
+		for i, l := range lines {
+			if w.lineKey(l) < w.lineKey(lines[min]) {
+				min = i
+			}
+		}
+		writeLines(file, append(append([]fileLine{}, lines[:min]...), lines[min+1:]...))
 	case "add":
 		writeLines(file, append(lines, lineFor(mkToken("X3", permsA, vtime.Now().Add(time.Hour)))))
 	case "replace":
@@ -780,10 +822,10 @@ func httpStatic() {
 
 func seqConfig(http bool, shard, shards int) seqx.Config {
 	name := "seq/lib"
-	depth := core.Pick(4, 6)
+	depth := core.Pick(5, 7)
 	if http {
 		name = "seq/http"
-		depth = core.Pick(3, 5)
+		depth = core.Pick(4, 6)
 	}
 	alpha := alphabet(http)
 	return seqx.Config{
